@@ -144,7 +144,8 @@ def initConn (c : C) (isClient : Bool) : C :=
 def clearStoreRelated (c : C) : C :=
   { c with s := { c.s with
       pidMan := Alloc.clear c.s.pidMan, puback := [], pubrec := [], pubcomp := [], store := [],
-      handled := [] } }                      -- fix: finding #2
+      handled := [],                         -- fix: finding #2
+      sendCount := 0 } }                     -- fix 9ba24a9: no exchange is left to count
 
 /-- `send_stored`: oversize entries are dropped and their id released (fix: only when in
     use), the others are requested for sending; fix (finding #10): every resent
@@ -553,10 +554,22 @@ def roleMaySend (r : Role) (p : Pkt) : Bool :=
   | .disconnect => if p.ver = 4 then (r = .client ∨ r = .any) else true
   | _ => true
 
+/-- the identifier a packet that starts an exchange carries (QoS 1/2 PUBLISH, SUBSCRIBE,
+    UNSUBSCRIBE): the application obtained it for this send -/
+def initiatingId (p : Pkt) : Option Nat :=
+  if p.kind = .publish ∨ p.kind = .subscribe ∨ p.kind = .unsubscribe then p.pid else none
+
+/-- fix 1d0ef05: a send refused before it reaches its handler (version, role) releases the
+    identifier obtained for it, like every other refusal -/
+def refuseSend (c : C) (e : Nat) (p : Pkt) : C :=
+  match initiatingId p with
+  | some id => releaseIfUsed (c.err e) id
+  | none => c.err e
+
 /-- `send` -/
 def send (c : C) (p : Pkt) : C :=
-  if c.s.ver ≠ p.ver then c.err eVersionMismatch
-  else if !roleMaySend c.cfg.role p then c.err eNotAllowed
+  if c.s.ver ≠ p.ver then refuseSend c eVersionMismatch p
+  else if !roleMaySend c.cfg.role p then refuseSend c eNotAllowed p
   else processSend c p
 
 /-! ## process_recv_* -/
